@@ -102,6 +102,32 @@ PROPS["C04"] = {
     "assumptions": ["transport chunks are never empty", "liveness of the grease stream and termination of poll_next_varint's loop are not claimed"],
 }
 
+PROPS["C18"] = {
+    "technique": "Kani full-domain harnesses on Datagram::{new,encode,decode} and impl Buf for EncodedDatagram against spec_varint_enc(S/4) ++ P",
+    "text": "Complete proof by CBMC: for every S = 4k < 2^62 and every payload length and chunking (content-free mock payload, since the code never looks inside it) the encoded buffer exposes exactly varint(S/4) then the payload under any two advances and under chunk-wise draining; decode over all byte strings of length 0..9 (the varint is at most 8 bytes) is Ok iff the varint is complete and 4q <= 2^62-1, returns 4q and the rest, and otherwise the error whose code is H3_DATAGRAM_ERROR; no overflow, no panic.",
+    "note": "Payload modelled as a content-free Buf of symbolic length <= usize::MAX-8; Kani/CBMC trusted; datagram handler plumbing beyond encode/decode is not under contract.",
+    "design_ref": "§4 C18",
+    "trusted_base": ["Kani 0.68 / CBMC 6.11; rustc", "kani/_spec.rs spec_datagram_hdr/dec, spec_varint_enc (RFC 9297 §2.1, RFC 9000 §16)"],
+    "assumptions": ["payload length <= usize::MAX-8", "usize is 64 bits"],
+}
+PROPS["C19"] = {
+    "technique": "Kani full-domain harnesses for the SessionId conversions and WebTransport stream headers; Verus contracts for the receive path (Frame::decode WT arm, FrameStream::into_inner, AcceptRecvStream::poll_type, poll_accept_recv gate)",
+    "text": "SessionId::from(stream).into_inner() == stream id and the two conversions are inverse for every id < 2^62; the headers h3 writes are varint(0x41|0x54) ++ varint(session id) (Kani, complete). On receipt the WebTransport bidi header consumes exactly type + session id and hands on the id it read (unit frames), into_inner returns the buffered stream unchanged so the bytes that followed the header are delivered by the raw readers (units frames + buf: chunk independence), the uni header is type + id for every split (unit uni_streams) and WebTransport uni streams are queued iff enable_webtransport.",
+    "note": "h3-webtransport's own forwarding impls (AsyncRead/AsyncWrite, accept_bi) are not under contract beyond the session_id line, which is the conversion proved here; WebTransportSession::accept is not extracted (its session id is `stream.send_id().into()`, read off the source).",
+    "design_ref": "§4 C19",
+    "trusted_base": COMMON_TB + ["kani/_spec.rs", "units frames, buf, uni_streams (their trusted bases)"],
+    "assumptions": ["the session_id line of WebTransportSession::accept is `stream.send_id().into()` (checked by reading, not extracted)"],
+}
+
+PROPS["C12"] = {
+    "technique": "Verus contracts on the extracted header validation / assembly / iteration functions with the http crate abstracted by assumed contracts",
+    "text": "Unbounded deductive proof of h3's own logic relative to the http crate's contracts: Field::parse is Ok exactly when the name is a non-empty lowercase token (and not DQUOTE) with legal value bytes, or one of the six defined pseudo names whose value passes its parser; an accepted section contains only such fields; into_request_parts needs :method and a non-empty authority from :authority or the first Host line, equal when both are present; into_response_parts needs :status; on the sending side HeaderIter yields exactly the pseudo fields (each at most once, the caller's values) followed by the map entries in order.",
+    "note": "RELATIVE TO the contracts in units/inc/http_shim.rs (HeaderName::from_lowercase, HeaderValue::from_bytes, Method/StatusCode/uri parsers, HeaderMap append/get/into_iter) — the documented contract of from_lowercase is false for the pinned http 1.5.0 (it accepts 0x22), the shim states the true one. RFC 9114 §4.3 rules that the property statement does not list (duplicate / misplaced / wrong-kind pseudo-header fields, mandatory :scheme/:path, a second differing Host line) are NOT obligations of this check; they are recorded as observations in DESIGN §4 C12. The call sites' mapping to H3_MESSAGE_ERROR is in unit error_scope.",
+    "design_ref": "§4 C12",
+    "trusted_base": COMMON_TB + ["units/inc/http_shim.rs: assumed contracts of http 1.5.0 and a few std items", "axiom_pseudo_literals (checked by rustc through a const assertion)"],
+    "assumptions": ["the http crate behaves as the shim says", "HeaderIter::next: partial correctness"],
+}
+
 NOT_YET = "unit not built yet in this round (see DESIGN §8 order of work)"
 for _id in ["C01", "C02", "C03", "C04", "C05", "C06", "C07", "C08", "C09", "C10", "C11", "C12", "C13", "C14", "C15", "C17", "C18", "C19"]:
     PROPS.setdefault(_id, {"not_applicable": NOT_YET})
